@@ -27,9 +27,12 @@ CONFIGS = {
     # note: `--no-default-features --features signature-meta` does not compile on the pinned tree
     # (decode_sig is cfg(signature-pgp) but used under cfg(signature-meta)); it is not analysed.
     "default": [],
+    # every codec plus the multi-threaded zstd encoder (the one remaining feature-gated code path); rules see it as "default+bzip2"
+    "all-features": ["--features", "bzip2-compression,zstdmt"],
 }
+RULE_CFG = {"all-features": "default+bzip2"}
 QUICK_CONFIGS = ["default+bzip2", "default"]   # every codec arm present + the crate's own default feature set
-THOROUGH_CONFIGS = ["default+bzip2", "default", "no-default"]
+THOROUGH_CONFIGS = ["default+bzip2", "default", "no-default", "all-features"]
 
 
 class InfraError(Exception):
